@@ -7,14 +7,18 @@ Arguments rm_dirent : simpl never.
 Arguments rm_mount : simpl never.
 
 (* ---------- metadata and directories in step ---------- *)
-Lemma live_dirs s : Inv s ->
+(* sequential histories leave no temp directory at rest (under concurrency a failed createSnapshot's temp
+   directory is visible until its deferred cleanup ran: Proofs/SnapConc.v) *)
+Definition NT (s : st) : Prop := forall d, In d (dirs s) -> exists id, d = DId id.
+
+Lemma live_dirs s : Inv s -> NT s ->
   (closed s = false -> forall n i, lookup (meta s) n = Some i -> In (DId (i_id i)) (dirs s)) /\
   (forall d, In d (dirs s) -> exists id, d = DId id /\ id <= seq s) /\
   (forall n i n' i', lookup (meta s) n = Some i -> lookup (meta s) n' = Some i' -> i_id i = i_id i' -> n = n').
 Proof.
-  intros I. split; [|split].
+  intros I N. split; [|split].
   - intros C n i L. eapply inv_has; eauto. apply lookup_in. exact L.
-  - apply inv_dirs. exact I.
+  - intros d H. destruct (N d H) as [id ->]. exists id. split; auto. eapply inv_dirs; eauto.
   - intros n i n' i' L L' E.
     assert (X : (n, i) = (n', i')).
     { eapply ids_inj; eauto using lookup_in. apply inv_ids. exact I. }
@@ -31,7 +35,7 @@ Proof.
   intros I C s'. destruct (cleanup_dirs_spec ub (cleanup_list s false) s) as [E [Sh [D _]]].
   fold s' in Sh, D. assert (M : meta s' = meta s) by (destruct Sh; auto). split; [exact M|].
   intros d. rewrite D, M. split.
-  - intros [A B]. destruct (inv_dirs _ I d A) as [id [Q _]]. subst d.
+  - intros [A B]. destruct d as [id|tn]; [|exfalso; apply B; apply cleanup_list_in; auto].
     destruct (mem id (ids_of (meta s))) eqn:Mm.
     + apply mem_in in Mm. apply in_ids in Mm. destruct Mm as [n [i [F Q]]].
       exists n, i. split; [|congruence]. apply in_lookup; auto. apply inv_names; exact I.
@@ -244,9 +248,8 @@ Lemma cleanup_log ub s o s' :
 Proof.
   intros I ->. destruct (cleanup_dirs_spec ub (cleanup_list s false) s) as [E [Sh [_ [CT _]]]].
   exists E. split; [destruct Sh; auto|].
-  eapply ctrace_selfd; [|exact CT]. intros d Q. right.
-  apply cleanup_list_in in Q. destruct Q as [Q1 Q2].
-  destruct (inv_dirs _ I d Q1) as [id [-> _]]. exists id. split; auto.
+  eapply ctrace_selfd; [|exact CT]. intros id Q. right.
+  apply cleanup_list_in in Q. destruct Q as [Q1 Q2]. exists id. split; auto.
   destruct Sh. rewrite sh_meta. exact Q2.
 Qed.
 
@@ -561,7 +564,7 @@ Proof. intros A B id H. apply in_app_or in H. destruct H; [eapply A|eapply B]; e
 
 Lemma ctrace_norc Q E : ctrace Q E -> norc E.
 Proof.
-  induction 1 as [|d lv ok t Qd CT IH]; [apply norc_nil|].
+  induction 1 as [|d lv ok t Qd Lv CT IH]; [apply norc_nil|].
   intros id [H|[H|H]]; try discriminate. eapply IH; eauto.
 Qed.
 
@@ -758,7 +761,7 @@ Definition nocheck (E : list event) : Prop := forall id b, ~ In (EvCheck id b) E
 
 Lemma ctrace_nocheck Q E : ctrace Q E -> nocheck E.
 Proof.
-  induction 1 as [|d lv ok t Qd CT IH]; intros id b H; [contradiction|].
+  induction 1 as [|d lv ok t Qd Lv CT IH]; intros id b H; [contradiction|].
   destruct H as [H|[H|H]]; try discriminate. eapply IH; eauto.
 Qed.
 
@@ -859,3 +862,53 @@ Proof.
       * unfold set_closed. cbn [log]. rewrite L. unfold emit. cbn [log]. rewrite <- app_assoc. reflexivity.
       * apply nocheck_app; [apply N1; exact I|exact N].
 Qed.
+
+(* ---------- no temp directory at rest in sequential histories ---------- *)
+Lemma step_dirs s o d : In d (dirs (fst (step s o))) -> In d (dirs s) \/ exists id, d = DId id.
+Proof.
+  assert (CR : forall k key parent l, In d (dirs (created s k key parent l)) -> In d (dirs s) \/ exists id, d = DId id).
+  { intros k key parent l [H|H]; [right; exists (S (seq s)); symmetry; exact H|]. apply rm_dirent_in in H. destruct H as [[H|H] N]; [congruence|auto]. }
+  assert (MO : forall cbad s2 sn ck, In d (dirs (fst (mounts_of cbad s2 sn ck))) -> In d (dirs s2)).
+  { intros cbad s2 sn ck H. destruct (mounts_of_spec cbad s2 sn ck) as [E [_ [D _]]]. rewrite D in H. exact H. }
+  assert (CL : forall ub s2 ds, In d (dirs (cleanup_dirs ub s2 ds)) -> In d (dirs s2)).
+  { intros ub s2 ds H. destruct (cleanup_dirs_spec ub ds s2) as [E [Sh _]]. destruct Sh. auto. }
+  destruct o; simpl.
+  - pose proof (prepare_cases s key parent l mok cbad) as PC. cbv zeta in PC.
+    destruct PC as [[e [E [_ [Sh _]]]]|[sn [CS [B1|[B2|B3]]]]].
+    + intros H. left. destruct Sh. auto.
+    + destruct B1 as [s2 [S2 [E' _]]]. rewrite E'. intros H. apply MO in H.
+      destruct S2 as [[_ ->]|[_ [_ ->]]]; apply (CR KActive key parent l); exact H.
+    + destruct B2 as [t [_ [_ [_ [_ E']]]]]. rewrite E'. intros H. apply (CR KActive key parent l). exact H.
+    + destruct B3 as [t [j [_ [_ [_ [_ E']]]]]]. rewrite E'. intros H. apply (CR KActive key parent l). exact H.
+  - unfold do_view. destruct (create_snapshot s KView key parent l) as [s1 [e|sn]] eqn:CS.
+    + simpl. apply create_err in CS. destruct CS as [E [Sh _]]. destruct Sh. auto.
+    + pose proof (create_ok _ _ _ _ _ _ _ CS) as OK. destruct OK as [_ [_ [_ [_ [E1 _]]]]].
+      fold (created s KView key parent l) in E1. subst s1. intros H. apply MO in H. apply (CR KView key parent l). exact H.
+  - destruct (commit_active s nm key l false) as [s1 r] eqn:CA. simpl. apply commit_log in CA.
+    destruct CA as [_ [_ [D _]]]. rewrite D. auto.
+  - unfold do_mounts. destruct (closed s); [auto|]. destruct (lookup (meta s) key) as [i|]; [|auto].
+    destruct (kind_eqb (i_kind i) KCommitted); [auto|].
+    destruct (i_parent i) as [p|]; [|intros H; left; eapply MO; eauto].
+    destruct (parents (fuel_of s) (meta s) p); auto. intros H; left; eapply MO; eauto.
+  - unfold do_remove. destruct (closed s); [auto|]. destruct (lookup (meta s) key) as [i|]; [|auto].
+    destruct (has_child (meta s) key); [auto|].
+    destruct (match i_parent i with
+              | Some p => match lookup (meta s) p with Some _ => false | None => true end
+              | None => false
+              end); [auto|].
+    destruct (async s); simpl; [auto|]. intros H. left. apply CL in H. exact H.
+  - unfold do_cleanup. destruct (closed s); simpl; [auto|]. intros H. left. eapply CL; eauto.
+  - unfold do_update. destruct (closed s); [auto|]. destruct (lookup (meta s) nm); auto.
+  - unfold do_stat. destruct (closed s); [auto|]. destruct (lookup (meta s) nm); auto.
+  - unfold do_close. destruct (closed s); [auto|]. destruct (Nat.eqb (seq s) 0); [simpl; auto|].
+    intros H. left. unfold set_closed in H. cbn [fst dirs] in H. apply CL in H. exact H.
+Qed.
+
+Lemma exec_nt os : forall s, NT s -> NT (exec s os).
+Proof.
+  induction os as [|o os IH]; intros s N; simpl; auto. apply IH.
+  intros d H. apply step_dirs in H. destruct H as [H|H]; auto.
+Qed.
+
+Lemma reach_nt a os : NT (exec (init a) os).
+Proof. apply exec_nt. intros d []. Qed.
